@@ -2,6 +2,7 @@ import Verif.Proofs.ReplaceKeys
 import Verif.Proofs.UrlLemmas
 import Verif.Proofs.UpdateFrame
 import Verif.Properties.C12
+import Verif.Proofs.StalePlans
 
 /-!
 # C04 — Flatten succeeds on well-formed input: the rewrite primitives accept every analyzer key
@@ -144,5 +145,41 @@ theorem updateRef_keeps_siblings (d : J) (key ref : String) (d' : J) (h : update
     (t : String) (ht : t ≠ "$ref") (rest : List String) :
     Spec.Pointer.get d' (keyTokens key ++ t :: rest) = Spec.Pointer.get d (keyTokens key ++ t :: rest) :=
   Proofs.UpdateFrame.updateRef_keeps_siblings d key ref d' h t ht rest
+
+/-! ### A pointer that moved with its holder is not visited at its old key
+
+`namePointers` plans every anonymous pointer up front.  When `flattenAnonPointer` moves a schema to a new definition,
+the pointers that schema holds have new keys; before the repair `630de91` their old keys were still visited and
+`UpdateRefWithSchema` failed on a valid bundle ("no schema with ref found at …/items": scenario `pointer-inside-moved`).
+Since the repair, for every document, plan and set of callers: -/
+
+/-- after `flattenAnonPointer`, either the plan is unchanged (nothing was moved) or no planned key other than the one
+    being visited lies under the place the moved schema has left -/
+theorem moved_pointers_leave_the_plan (fc : Facts) (x : Flatten.Ext) (o : Flatten.Opts) (ops : List (String × Flatten.OpRef))
+    (st : Flatten.St) (plans : List (String × Flatten.PtrPlan)) (key : String) (v : Flatten.PtrPlan)
+    (r : Flatten.St × List (String × Flatten.PtrPlan))
+    (h : Flatten.flattenAnonPointer fc x o ops st plans key v = .ok r) :
+    r.2 = plans ∨ ∀ p ∈ r.2, p.1 = key ∨ Str.hasPrefix (Flatten.unescOrEmpty v.ref ++ "/") p.1 = false := by
+  rcases Proofs.StalePlans.flattenAnonPointer_plans fc x o ops st plans key v r h with h' | ⟨callers, h'⟩
+  · exact Or.inl h'
+  · right
+    rw [h']
+    exact Proofs.StalePlans.plansAfterMove_clean v key callers plans
+
+/-- the conclusion says something: a plan that still holds a key under the moved schema does not meet it, a plan with
+    the visited key and keys elsewhere does -/
+example (pl : Flatten.PtrPlan) :
+    (∀ p ∈ [("k", pl), ("n/x", pl)], p.1 = "k" ∨ Str.hasPrefix ("m" ++ "/") p.1 = false) ∧
+    ¬ (∀ p ∈ [("k", pl), ("m/x", pl)], p.1 = "k" ∨ Str.hasPrefix ("m" ++ "/") p.1 = false) := by
+  constructor
+  · intro p hp
+    simp only [List.mem_cons, List.not_mem_nil, or_false] at hp
+    rcases hp with hp | hp <;> subst hp
+    · exact Or.inl rfl
+    · exact Or.inr (show Str.hasPrefix ("m" ++ "/") "n/x" = false by decide)
+  · intro h
+    rcases h ("m/x", pl) (by simp) with h | h
+    · exact absurd (show "m/x" = "k" from h) (by decide)
+    · exact absurd (show Str.hasPrefix ("m" ++ "/") "m/x" = false from h) (by decide)
 
 end C04
